@@ -49,10 +49,10 @@ func main() {
 		// Floors: about 1/5 of what the quick tier measures at seed 1 (the
 		// enumerations are deterministic, their floors sit just below the exact count).
 		Floors: map[string]int64{
-			"schedules":             1300,
-			"random_programs":       2000,
-			"sys_interleavings":     3300,
-			"sys_programs":          4400,
+			"schedules":             1000,
+			"random_programs":       1600,
+			"sys_interleavings":     2500,
+			"sys_programs":          3300,
 			"leaf_consumptions":     6000,
 			"size_calls":            2000,
 			"decisions_with_choice": 4000,
